@@ -349,7 +349,10 @@ func checkParse(text string) ([]h.Failure, string) {
 // generators
 
 func genKeyText() *rapid.Generator[string] {
-	pieces := []string{"a", "b", "k", "键", "\"", "\\", "/", "\n", "\t", "\x00", "\x1f", "\u2028", "\u2029", "<", ">", "&", "😊", "𝒳", "é", " ", "", "0", "\u007f", "\ufeff", "\ufffd"}
+	pieces := []string{"a", "b", "k", "键", "\"", "\\", "/", "\n", "\t", "\x00", "\x1f", "\u2028", "\u2029", "<", ">", "&", "😊", "𝒳", "é", " ", "", "0", "\u007f", "\ufeff", "\ufffd",
+		// texts that LOOK like JSON escapes (a literal backslash followed by escape letters):
+		// the encoder must escape the backslash, and nothing may re-interpret the result
+		"\\u0026", "\\u003c", "\\u003e", "\\u2028", "\\u0000", "\\ud83d", "\\n", "\\\"", "\\\\", "\\/", "u0026", "\\u", "\\u00"}
 	return rapid.Custom(func(t *rapid.T) string {
 		n := rapid.IntRange(0, 4).Draw(t, "n")
 		var b strings.Builder
